@@ -12,4 +12,4 @@ PROP = {
                'worker and are reported from crash.tape (not shrunk). libstdc++ vector annotations are off, so an over-read that stays inside the payload vector capacity (<= 2 bytes '
                'when the base64 text is padded) is invisible; unpadded lengths are generated as often as padded ones. Second compiler: the same tapes also run against a g++ -O2 ASan/UBSan build of the code under test (engine \'tape-rc (second compiler…)\'), because the two compilers instrument and optimise undefined behaviour differently (e.g. abs(INT64_MIN) is only reported by g++\'s UBSan, and clang can fold such UB into a correct-looking result); failing tapes of that engine are kept as *.gcc.tape and replayed with that build.',
  'assumptions': ['ASan/UBSan report every out-of-bounds access / signed overflow executed', 'fork() is available to the worker'],
- 'tiers': {'quick': [rc(60000), rc(60000, suffix='_gcc')], 'thorough': [rc(400000, W), fuzz(240, 8, max_len=17 + 10 * 24), rc(400000, 4, suffix='_gcc')]}}
+ 'tiers': {'quick': [rc(60000), rc(30000, suffix='_gcc')], 'thorough': [rc(400000, W), fuzz(240, 8, max_len=17 + 10 * 24), rc(400000, 4, suffix='_gcc')]}}
